@@ -298,6 +298,7 @@ Proof.
   intros Hk Hle. unfold mps_number. subst m0 s0.
   destruct (get_segment_index r (mps_start_tc r pstart ref_ts)) as [[m s] o]. cbn [fst snd] in *.
   replace (r_start_number r + k - r_start_number r) with k by lia.
+  destruct (r_start_number r + k <? r_start_number r) eqn:Eb; [lia|].
   destruct (nseg r <? m + k) eqn:E; [lia|]. reflexivity.
 Qed.
 
@@ -307,7 +308,16 @@ Proof.
   intros Hlt. unfold mps_number. subst m0.
   destruct (get_segment_index r (mps_start_tc r pstart ref_ts)) as [[m s] o]. cbn [fst snd] in *.
   replace (r_start_number r + k - r_start_number r) with k by lia.
+  destruct (r_start_number r + k <? r_start_number r) eqn:Eb; [reflexivity|].
   destruct (nseg r <? m + k) eqn:E; [reflexivity|lia].
+Qed.
+
+(* a number below startNumber addresses nothing of this Period *)
+Theorem mps_number_before N : N < r_start_number r -> mps_number r pstart ref_ts N = None.
+Proof.
+  intros Hlt. unfold mps_number.
+  destruct (get_segment_index r (mps_start_tc r pstart ref_ts)) as [[m s] o].
+  destruct (N <? r_start_number r) eqn:Eb; [reflexivity|lia].
 Qed.
 
 (* zero at the Period start (for an offset inside the first pass over the file) and gapless *)
